@@ -143,10 +143,17 @@ def run() -> int:
                 p2 = dict(payload)
                 p2["kind"] = "mutated"
                 rep.add_violation(Violation(PROP, [key + " mutated"], f"ID modified its input graph or query sets for {key}", p2))
+    from .. import history_runs
+
+    history_runs.run(rep, PROP)
     return rep.finish()
 
 
 def replay(payload: dict) -> int:
+    if payload.get("kind") == "history":
+        from .. import history_runs
+
+        return history_runs.replay(PROP, payload)
     g = GSpec.from_json(payload["graph"])
     X, Y = payload["X"], payload["Y"]
     rec = run_one(g, X, Y)
